@@ -86,6 +86,9 @@ type vfSent struct {
 	AfterStop  bool
 	Remote     bool
 	Op         string
+	// PostRelease: sent after the target, a former zombie, was observed released (terminated and deregistered) at a
+	// quiescent point: the zombie exemption of the ledger no longer applies
+	PostRelease bool
 }
 
 type vfWorld struct {
@@ -178,6 +181,17 @@ func (w *vfWorld) tell(ref vivid.ActorRef, via string, cmd *vfCmd) {
 	}
 	w.mu.Lock()
 	w.sent[cmd.ID] = &vfSent{ID: cmd.ID, TargetPath: ref.GetPath(), Via: via, At: w.clock.Add(1), AfterStop: w.stopped.Load(), Op: cmd.Op}
+	w.mu.Unlock()
+	w.sys.Tell(ref, cmd)
+}
+
+// tellPostRelease is tell for a target that was a zombie and has been observed released.
+func (w *vfWorld) tellPostRelease(ref vivid.ActorRef, via string, cmd *vfCmd) {
+	if cmd.ID == 0 {
+		cmd.ID = w.newID()
+	}
+	w.mu.Lock()
+	w.sent[cmd.ID] = &vfSent{ID: cmd.ID, TargetPath: ref.GetPath(), Via: via, At: w.clock.Add(1), AfterStop: w.stopped.Load(), Op: cmd.Op, PostRelease: true}
 	w.mu.Unlock()
 	w.sys.Tell(ref, cmd)
 }
@@ -779,7 +793,7 @@ func (w *vfWorld) oracleLedger(zombiePaths map[string]bool) (v []vfViol) {
 			total++
 		}
 		key := "via=" + s.Via
-		if w.wasZombie(s.TargetPath, zombiePaths) {
+		if w.wasZombie(s.TargetPath, zombiePaths) && !s.PostRelease {
 			if dl[id] > 1 {
 				v = append(v, vfViol{"c03-dead-letter-duplicated", key, fmt.Sprintf("message #%d to zombie %s dead-lettered %d times", id, s.TargetPath, dl[id])})
 			}
